@@ -126,7 +126,7 @@ type Sched struct {
 	gids    sync.Map // goroutine id -> *Thread
 	started bool
 	ready   sync.WaitGroup
-	inPick  bool // set while the scheduler itself runs harness code (state keys): hooks are no-ops
+	inPick  bool         // set while the scheduler itself runs harness code (state keys): hooks are no-ops
 	beat    atomic.Int64 // progress counter for the watchdog
 }
 
@@ -459,6 +459,9 @@ func (s *Sched) stateKey(run *Thread) string {
 	return string(b)
 }
 
+// TraceLabels, if set, receives (thread, label) of every park (harness debugging).
+var TraceLabels func(thread, label string)
+
 // DebugKeys, if set, receives every state key (harness debugging).
 var DebugKeys func(string)
 
@@ -529,6 +532,9 @@ func (s *Sched) park(t *Thread, label string, acc []Access) {
 	}
 	t.label = label
 	t.pending = acc
+	if TraceLabels != nil {
+		TraceLabels(t.Name, label)
+	}
 	next := s.pick(t)
 	if next == nil {
 		if s.aborted == "" {
